@@ -60,6 +60,9 @@ def judge(case, envs, rfun=None):
     from hpl.rewrite import simplify
 
     h = case.h
+    if S.power_bomb(h):
+        return ('licensed-raise', {'error': 'not-called', 'why': 'astronomically large constant power'}, False, 0,
+                {'power-too-large-to-fold': 1})
     snap_before = monitors.snapshot(h)
     o = hplapi.outcome(simplify, h)
     if o[0] != 'ok':
